@@ -188,9 +188,27 @@ def run_sut(ops, shims=(), **kw):
 
 # ----------------------------------------------------------------------------- comparison
 
-def first_divergence(ops, sut, refs):
+def first_divergence(ops, sut, refs, raw_text=False):
     """compare SUT results with per-op references; audits against creators' reference dumps.
-    returns None or a dict describing the first divergence."""
+    returns None or a dict describing the first divergence.  raw_text: also require the *string*
+    returned by to_b64() to equal the pristine one (a return value like any other)."""
+    d = _first_divergence(ops, sut, refs)
+    if raw_text:
+        res = sut["results"]
+        for k, op in enumerate(ops):
+            if d is not None and k >= d["at"]:
+                break
+            if k < len(res) and isinstance(res[k], dict) and isinstance(refs[k], dict) \
+                    and "raw" in res[k] and "raw" in refs[k] and res[k]["raw"] != refs[k]["raw"]:
+                import hashlib
+                return {"kind": "b64text", "at": k, "op": op,
+                        "why": "to_b64() returns a different string than on a freshly built identical object",
+                        "sut": {"len": len(res[k]["raw"]), "sha": hashlib.sha256(res[k]["raw"].encode()).hexdigest()[:16]},
+                        "ref": {"len": len(refs[k]["raw"]), "sha": hashlib.sha256(refs[k]["raw"].encode()).hexdigest()[:16]}}
+    return d
+
+
+def _first_divergence(ops, sut, refs):
     cr = creators(ops)
     live = {}
     res = sut["results"]
@@ -233,7 +251,7 @@ def _audit_div(audit, live, refs, at):
     return None
 
 
-def evaluate(ops, shims=(), cache=None, refs=None):
+def evaluate(ops, shims=(), cache=None, refs=None, raw_text=False):
     """full check of one program: references for every op, one SUT run, comparison."""
     if refs is None:
         refs = []
@@ -243,4 +261,4 @@ def evaluate(ops, shims=(), cache=None, refs=None):
             else:
                 refs.append(reference(ops, k, shims, cache))
     sut = procs.run_child(child_all, (ops,), shims=shims)
-    return first_divergence(ops, sut, refs), sut, refs
+    return first_divergence(ops, sut, refs, raw_text), sut, refs
